@@ -732,6 +732,9 @@ def cmd_verify(types, opts):
             t = types[tname]
             # Block records may carry an extension as an extra field (BlockV1 as_v0)
             ok = m.valid(t, b) or (tname == "Block" and m.valid(types["BlockV1"], b))
+            # records of values only the compatible reader accepts (trailing fields of a later schema)
+            if not ok and "(compatible)" in rec.get("src", ""):
+                ok = m.valid(t, b, compat=True)
             if not ok:
                 out.write(json.dumps({"error": "oracle got hashes for a value it rejects",
                                       "type": tname, "hex": hx[:200]}) + "\n")
